@@ -181,7 +181,7 @@ def run(tier, seed):
                 fh.write(json.dumps(line) + "\n")
         trace = os.path.join(rd, "walk_%d.ndjson" % n)
         rc, so, se = v.run_cmd([fxv, "freespace", "--hi", str(16 + n), "--prog", prog,
-                                "--out", trace], timeout=300)
+                                "--slack", str([2048, 0, 1][n % 3]), "--out", trace], timeout=300)
         if rc != 0:
             raise v.ToolError("fxv freespace failed: " + se[-500:])
         traces.append((trace, 16 + n, "walk%d" % n, len(walk)))
@@ -199,6 +199,8 @@ def run(tier, seed):
         rc, so, se = v.run_cmd([fxv, "freespace", "--hi", str(hi), "--seed",
                                 str(rng.randrange(1 << 30)), "--calls", str(calls),
                                 "--maxreq", str(rng.choice([3, 8, 20, 40])),
+                                # device sizes that are not a whole number of blocks: the partial block is nobody's
+                                "--slack", str([0, 1, 2048, 4095, 0, 512][i % 6]),
                                 "--out", trace], timeout=300)
         if rc != 0:
             raise v.ToolError("fxv freespace (random) failed: " + se[-500:])
